@@ -5,7 +5,7 @@ use duckscript::types::runtime::Context;
 use serde_json::{json, Value};
 use std::collections::BTreeMap;
 
-const NAMES: [&str; 11] = ["a", "b", "c", "p::x", "p::y", "nope", "p", "px", "p_q::x", "p:", "pp::x"];
+const NAMES: [&str; 14] = ["a", "b", "c", "p::x", "p::y", "nope", "p", "px", "p_q::x", "p:", "pp::x", "p::::z", "a::x", "a::::y"];
 const VALS: [&str; 6] = ["1", "two", "x y", "false", "", " "];
 
 pub fn gen(r: &mut Rng) -> Value {
@@ -26,7 +26,7 @@ pub fn gen(r: &mut Rng) -> Value {
                     json!({"op": "unset_all_vars"})
                 }
             }
-            8 => json!({"op": "clear_scope", "name": r.pick(&["p", "p", "pp", "a"])}),
+            8 => json!({"op": "clear_scope", "name": r.pick(&["p", "p", "pp", "a", "p::", "a::", "p:"])}),
             9 | 10 => json!({"op": "push", "copy": copy}),
             _ => json!({"op": "pop", "copy": copy}),
         };
